@@ -120,7 +120,6 @@ def identifier_cases(rnd):
             (lab, "@export A = C;\n@char C = 'a' | %s;\n%s = 'b';\n" % (n, n), None, None),
             (lab, "@string S = q:%s;\n%s = 'b';\n@export A = S;\n" % (n, n), None, None),
             (lab, "@string S = %s:B;\nB = 'b';\n@export A = S;\n" % n, None, None),
-            (lab, "@export A = 'a';\n", None, "%s::Ctx" % n),
         ]
     for d in (["serde::Serialize"], ["Debug", ""], ["Vec<u8>"], ["0x"], ["self"], ["Debug", "Clone", "_"], ["Clone "]):
         out.append(("derive-odd", "@export A = 'a' b:B;\nB = 'b';\n", d, None))
